@@ -95,6 +95,324 @@ fn run_c03(ctx: &mut Ctx) -> Verdict {
             expect: Expect::Exact(want),
             ser_must_succeed: true,
             doc_check: Some(&doc_check),
+            classify: None,
+            hash_seed: hs,
+        },
+    )
+}
+
+// ---------------------------------------------------------------------------------------------
+// C04
+
+const PREFIX_POOL: &[(&str, &str)] = &[
+    ("", "http://example.org/"),
+    ("ns", "http://example.org/ns/"),
+    ("nsh", "http://example.org/ns#"),
+    ("ex", "http://example.org/"),
+    ("rdf", "http://www.w3.org/1999/02/22-rdf-syntax-ns#"),
+    ("xsd", "http://www.w3.org/2001/XMLSchema#"),
+    ("o", "http://other.example/x/"),
+    ("u", "urn:x:"),
+    ("e2", "http://example.org"),
+    ("a.b", "http://example.org/a"),
+    ("nsc", "http://example.org/ns/c/"),
+    ("\u{e9}", "http://example.org/\u{e9}"),
+];
+
+const INDENT_POOL: &[&str] = &["  ", "", " ", "\t", "    ", " \t", "\n"];
+
+fn draw_prefixes(ctx: &mut Ctx) -> Vec<(String, String)> {
+    match ctx.tape.draw(4) {
+        0 => vec![
+            ("rdf".into(), RDF.into()),
+            ("rdfs".into(), "http://www.w3.org/2000/01/rdf-schema#".into()),
+            ("xsd".into(), XSD.into()),
+        ],
+        1 => vec![],
+        _ => {
+            let n = ctx.tape.range(1, 6);
+            let mut out: Vec<(String, String)> = vec![];
+            for _ in 0..n {
+                let (p, ns) = PREFIX_POOL[ctx.tape.below(PREFIX_POOL.len())];
+                if !out.iter().any(|(q, _)| q == p) {
+                    out.push((p.to_string(), ns.to_string()));
+                }
+            }
+            out
+        }
+    }
+}
+
+fn has_quoted(q: &MQuad) -> bool {
+    q.0.iter().any(|t| matches!(t, MTerm::Triple(_))) || matches!(q.1, Some(MTerm::Triple(_)))
+}
+
+fn run_c04(ctx: &mut Ctx) -> Verdict {
+    let hs = ctx.tape.draw(1 << 32);
+    let trig = ctx.tape.flag();
+    let pretty = ctx.tape.flag();
+    let prefixes = draw_prefixes(ctx);
+    let indentation = INDENT_POOL[ctx.tape.below(INDENT_POOL.len())].to_string();
+    let generalized_reader = ctx.tape.chance(1, 4);
+    let star = ctx.tape.flag();
+    let mut profile = if star { Profile::star() } else { Profile::strict() };
+    profile.graphs = trig;
+    let (_a, input, shapes) = gen_dataset(&mut ctx.tape, &profile);
+    for s in &shapes {
+        ctx.probe(s);
+    }
+    ctx.probe(if pretty { "pretty" } else { "streaming" });
+    ctx.probe(if trig { "trig" } else { "turtle" });
+    if input.iter().any(has_quoted) {
+        ctx.probe("quoted_triples_present");
+    }
+    let want: BTreeSet<MQuad> = input.iter().map(norm_quad).collect();
+    let fmt = Ttl {
+        trig,
+        pretty,
+        prefixes,
+        indentation,
+        generalized_reader,
+    };
+    run_roundtrip(
+        ctx,
+        &RtSpec {
+            fmt: &fmt,
+            input: &input,
+            expect: Expect::Iso(want),
+            ser_must_succeed: true,
+            doc_check: None,
+            classify: None,
+            hash_seed: hs,
+        },
+    )
+}
+
+// ---------------------------------------------------------------------------------------------
+// C18
+
+fn is_name_start(c: char) -> bool {
+    matches!(c, 'A'..='Z' | '_' | 'a'..='z' | '\u{C0}'..='\u{D6}' | '\u{D8}'..='\u{F6}'
+        | '\u{F8}'..='\u{2FF}' | '\u{370}'..='\u{37D}' | '\u{37F}'..='\u{1FFF}'
+        | '\u{200C}'..='\u{200D}' | '\u{2070}'..='\u{218F}' | '\u{2C00}'..='\u{2FEF}'
+        | '\u{3001}'..='\u{D7FF}' | '\u{F900}'..='\u{FDCF}' | '\u{FDF0}'..='\u{FFFD}'
+        | '\u{10000}'..='\u{EFFFF}')
+}
+fn is_name_char(c: char) -> bool {
+    is_name_start(c)
+        || matches!(c, '-' | '.' | '0'..='9' | '\u{B7}' | '\u{300}'..='\u{36F}' | '\u{203F}'..='\u{2040}')
+}
+
+/// Can this IRI be written as an XML qualified name (non-empty namespace + NCName local part)?
+fn qname_splittable(iri: &str) -> bool {
+    let chars: Vec<(usize, char)> = iri.char_indices().collect();
+    // longest NCName suffix
+    let mut start = chars.len();
+    while start > 0 && is_name_char(chars[start - 1].1) {
+        start -= 1;
+    }
+    // move forward to the first NameStartChar within the suffix
+    while start < chars.len() && !is_name_start(chars[start].1) {
+        start += 1;
+    }
+    start < chars.len() && start > 0
+}
+
+fn run_c18(ctx: &mut Ctx) -> Verdict {
+    let hs = ctx.tape.draw(1 << 32);
+    let indentation = ctx.tape.below(9);
+    let mut profile = Profile::strict();
+    profile.graphs = false;
+    profile.xml_chars = true;
+    profile.star = ctx.tape.chance(1, 8);
+    let (_a, mut input, shapes) = gen_dataset(&mut ctx.tape, &profile);
+    for s in &shapes {
+        ctx.probe(s);
+    }
+    // known findings in rio_xml (see known_findings.json): blank node labels that are not
+    // NCNames, rdf:li as predicate, whitespace-only text. Generated in 1 run out of 8 only.
+    if !ctx.tape.chance(1, 8) {
+        let li = format!("{RDF}li");
+        input = input
+            .iter()
+            .map(|q| {
+                let mut q = map_quad_bnodes(q, &|l| {
+                    if l.starts_with(|c: char| c.is_ascii_digit()) {
+                        format!("n{l}")
+                    } else {
+                        l.to_string()
+                    }
+                });
+                if q.0[1] == MTerm::Iri(li.clone()) {
+                    q.0[1] = MTerm::Iri(format!("{RDF}value"));
+                }
+                if let MTerm::Lit(lex, _) | MTerm::Lang(lex, _) = &mut q.0[2] {
+                    if !lex.is_empty() && lex.chars().all(char::is_whitespace) {
+                        lex.push('x');
+                    }
+                }
+                q
+            })
+            .collect();
+    } else {
+        ctx.probe("known_finding_triggers_allowed");
+    }
+    let expressible: Vec<MQuad> = input.iter().filter(|q| !has_quoted(q)).cloned().collect();
+    if expressible.len() != input.len() {
+        ctx.probe("inexpressible_triples_present");
+    }
+    let must = expressible.len() == input.len() && expressible.iter().all(|q| match &q.0[1] {
+        MTerm::Iri(i) => qname_splittable(i),
+        _ => false,
+    });
+    ctx.probe(if must { "domain_must_succeed" } else { "domain_may_refuse" });
+    let want: BTreeSet<MQuad> = expressible.iter().map(norm_quad).collect();
+    let fmt = Xml { indentation };
+    let classify = |want: &BTreeSet<MQuad>, got: &BTreeSet<MQuad>| -> Option<&'static str> {
+        // is the only difference that whitespace-only text came back empty?
+        let blank = |q: &MQuad| -> MQuad {
+            let mut q = q.clone();
+            if let MTerm::Lit(lex, _) | MTerm::Lang(lex, _) = &mut q.0[2] {
+                if lex.chars().all(char::is_whitespace) {
+                    lex.clear();
+                }
+            }
+            q
+        };
+        let w2: BTreeSet<MQuad> = want.iter().map(blank).collect();
+        let g2: BTreeSet<MQuad> = got.iter().map(blank).collect();
+        if isomorphic(&w2, &g2).is_yes() {
+            return Some("whitespace_only_text_lost");
+        }
+        None
+    };
+    run_roundtrip(
+        ctx,
+        &RtSpec {
+            fmt: &fmt,
+            input: &input,
+            expect: Expect::Iso(want),
+            ser_must_succeed: must,
+            doc_check: None,
+            classify: Some(&classify),
+            hash_seed: hs,
+        },
+    )
+}
+
+// ---------------------------------------------------------------------------------------------
+// C12
+
+const JSON_CANON: &[&str] = &["{\"a\":1}", "[1,2]", "null", "true", "1", "\"x\"", "{}", "[]", "{\"a\":[null,\"b\"]}"];
+const RDF_JSON: &str = "http://www.w3.org/1999/02/22-rdf-syntax-ns#JSON";
+
+fn jsonld_expressible(q: &MQuad) -> bool {
+    let abs = |i: &str| i.contains(':');
+    let s_ok = match &q.0[0] {
+        MTerm::Iri(i) => abs(i),
+        MTerm::Bnode(_) => true,
+        _ => false,
+    };
+    let p_ok = matches!(&q.0[1], MTerm::Iri(i) if abs(i));
+    let o_ok = match &q.0[2] {
+        MTerm::Iri(i) => abs(i),
+        MTerm::Bnode(_) | MTerm::Lit(..) | MTerm::Lang(..) => true,
+        _ => false,
+    };
+    let g_ok = match &q.1 {
+        None | Some(MTerm::Bnode(_)) => true,
+        Some(MTerm::Iri(i)) => abs(i),
+        _ => false,
+    };
+    s_ok && p_ok && o_ok && g_ok
+}
+
+fn fix_json_literals(t: &mut MTerm, ctx: &mut Ctx) {
+    match t {
+        MTerm::Lit(lex, dt) if dt == RDF_JSON => {
+            if !JSON_CANON.contains(&lex.as_str()) {
+                *lex = JSON_CANON[ctx.tape.below(JSON_CANON.len())].to_string();
+            }
+        }
+        MTerm::Triple(tr) => {
+            for x in tr.iter_mut() {
+                fix_json_literals(x, ctx);
+            }
+        }
+        _ => {}
+    }
+}
+
+fn run_c12(ctx: &mut Ctx) -> Verdict {
+    let hs = ctx.tape.draw(1 << 32);
+    let fmt = JsonLd {
+        spaces: ctx.tape.below(5) as u16,
+        mode_1_0: ctx.tape.flag(),
+        use_rdf_type: ctx.tape.flag(),
+        dir: [Dir::None, Dir::I18n, Dir::Compound][ctx.tape.below(3)],
+    };
+    let mut profile = if ctx.tape.chance(1, 4) {
+        let mut p = Profile::generalized();
+        p.rel_iris = false;
+        p
+    } else {
+        Profile::strict()
+    };
+    profile.max_quads = 10;
+    let (_a, mut input, shapes) = gen_dataset(&mut ctx.tape, &profile);
+    for q in &mut input {
+        for t in q.0.iter_mut() {
+            fix_json_literals(t, ctx);
+        }
+    }
+    for s in &shapes {
+        ctx.probe(s);
+    }
+    // known finding (rdf-types forgets '.' in BLANK_NODE_LABEL): keep dotted labels in 1 run
+    // out of 8 only, so that the other runs explore past it
+    if !ctx.tape.chance(1, 8) {
+        input = input
+            .iter()
+            .map(|q| map_quad_bnodes(q, &|l| l.replace('.', "-")))
+            .collect();
+    } else if input.iter().any(|q| {
+        let mut ls = BTreeSet::new();
+        quad_bnodes(q, &mut ls);
+        ls.iter().any(|l| l.contains('.'))
+    }) {
+        ctx.probe("dotted_bnode_labels_present");
+    }
+    let expressible: Vec<MQuad> = input.iter().filter(|q| jsonld_expressible(q)).cloned().collect();
+    if expressible.len() != input.len() {
+        ctx.probe("inexpressible_quads_present");
+    }
+    if expressible.iter().any(|q| q.1.is_some()) {
+        ctx.probe("named_graphs_present");
+    }
+    let want: BTreeSet<MQuad> = expressible.iter().map(norm_quad).collect();
+    let classify = |want: &BTreeSet<MQuad>, got: &BTreeSet<MQuad>| -> Option<&'static str> {
+        // is the only difference that `_:l rdf:type rdf:List` quads of compacted lists are gone?
+        let ty = MTerm::Iri(format!("{RDF}type"));
+        let list = MTerm::Iri(format!("{RDF}List"));
+        let w2: BTreeSet<MQuad> = want
+            .iter()
+            .filter(|q| !(q.0[0].is_bnode() && q.0[1] == ty && q.0[2] == list))
+            .cloned()
+            .collect();
+        if w2.len() < want.len() && isomorphic(&w2, got).is_yes() {
+            return Some("rdf_list_type_dropped");
+        }
+        None
+    };
+    run_roundtrip(
+        ctx,
+        &RtSpec {
+            fmt: &fmt,
+            input: &input,
+            expect: Expect::Iso(want),
+            ser_must_succeed: true,
+            doc_check: None,
+            classify: Some(&classify),
             hash_seed: hs,
         },
     )
@@ -107,8 +425,120 @@ const STREAM_STUBS: &[&str] = &[
     "independent term model / isomorphism / N-Quads reader (oracles)",
 ];
 
+fn base(property: &'static str, tag: u64, run: fn(&mut Ctx) -> Verdict) -> Scenario {
+    Scenario {
+        property,
+        tag,
+        run,
+        quick_runs: 100_000,
+        thorough_runs: 5_000_000,
+        level: "exploration",
+        rule: "",
+        real_components: &[],
+        stub_components: STREAM_STUBS,
+        assumptions: &[
+            "seams honour std contracts (write accepts >=1 byte unless it errs; hard errors sticky; EINTR bursts <= 3)",
+            "single hard fault per direction per run",
+            "datasets sampled from a small alphabet generator (input sampling, not enumeration); <= 8 blank nodes so the exact isomorphism oracle is cheap",
+        ],
+        panic_is_violation: true,
+        death_is_violation: true,
+        shrink_budget: 2500,
+        run_timeout_s: 30,
+        thorough_extra: None,
+        warmup: Some(warmup),
+    }
+}
+
+/// Touch every serializer and parser once so that lazy statics (regexes, vocabularies, tokio
+/// internals) exist before the first measured run of this process.
+fn warmup() {
+    use simcore::seams::{SimReader, SimWriter};
+    // every term kind, every abbreviation path, every validator
+    let x = |l: &str| MTerm::iri(&format!("http://example.org/{l}"));
+    let xsd = |l: &str| format!("http://www.w3.org/2001/XMLSchema#{l}");
+    let mut q: Vec<MQuad> = vec![
+        ([MTerm::bn("b"), x("p"), MTerm::Lang("x".into(), "en-US".into())], None),
+        ([x("s"), x("p"), MTerm::lit("1", &xsd("integer"))], Some(x("g"))),
+        ([x("s"), x("p"), MTerm::lit("1.5", &xsd("decimal"))], Some(MTerm::bn("g"))),
+        ([x("s"), x("p"), MTerm::lit("1e3", &xsd("double"))], None),
+        ([x("s"), x("p"), MTerm::lit("true", &xsd("boolean"))], None),
+        ([x("s"), x("p"), MTerm::lit("a\"b\n", XSD_STRING)], None),
+        ([x("s"), MTerm::iri("http://www.w3.org/1999/02/22-rdf-syntax-ns#type"), x("ns#T")], None),
+        ([x("s"), x("p"), MTerm::bn("l")], None),
+        ([MTerm::bn("l"), MTerm::iri("http://www.w3.org/1999/02/22-rdf-syntax-ns#first"), x("i")], None),
+        ([MTerm::bn("l"), MTerm::iri("http://www.w3.org/1999/02/22-rdf-syntax-ns#rest"), MTerm::iri("http://www.w3.org/1999/02/22-rdf-syntax-ns#nil")], None),
+        ([MTerm::triple(x("a"), x("b"), MTerm::bn("c")), x("p"), MTerm::triple(x("a"), x("b"), MTerm::lit("z", XSD_STRING))], None),
+        ([MTerm::Var("v".into()), MTerm::bn("p"), MTerm::iri("rel")], Some(MTerm::lit("g", XSD_STRING))),
+        ([x("s"), x("p"), MTerm::lit("{\"a\":1}", "http://www.w3.org/1999/02/22-rdf-syntax-ns#JSON")], None),
+        ([x("s"), x("p"), MTerm::lit("x", "https://www.w3.org/ns/i18n#en_ltr")], None),
+    ];
+    for i in IRI_POOL.iter().take(30) {
+        q.push(([MTerm::iri(i), MTerm::iri(i), MTerm::iri(i)], None));
+    }
+    let strict: Vec<MQuad> = q
+        .iter()
+        .filter(|q| jsonld_expressible(q))
+        .cloned()
+        .collect();
+    let fmts: Vec<Box<dyn Format>> = vec![
+        Box::new(Nx { triples: false, reader: NxReader::Strict }),
+        Box::new(Nx { triples: true, reader: NxReader::Generalized }),
+        Box::new(Ttl { trig: true, pretty: true, prefixes: vec![], indentation: " ".into(), generalized_reader: false }),
+        Box::new(Ttl { trig: false, pretty: false, prefixes: vec![], indentation: " ".into(), generalized_reader: true }),
+        Box::new(Xml { indentation: 1 }),
+        Box::new(Ttl { trig: true, pretty: true, prefixes: vec![("".into(), "http://example.org/".into()), ("rdf".into(), RDF.into()), ("xsd".into(), XSD.into())], indentation: " ".into(), generalized_reader: false }),
+        Box::new(JsonLd { spaces: 1, mode_1_0: false, use_rdf_type: false, dir: Dir::Compound }),
+        Box::new(JsonLd { spaces: 0, mode_1_0: true, use_rdf_type: true, dir: Dir::I18n }),
+    ];
+    for f in &fmts {
+        let w = SimWriter::perfect();
+        let _ = f.serialize(&q, w.handle());
+        let _ = f.parse(SimReader::perfect(w.accepted()));
+        let w = SimWriter::perfect();
+        let _ = f.serialize(&strict, w.handle());
+        let _ = f.parse(SimReader::perfect(w.accepted()));
+    }
+}
+
+const RT_RULE: &str = "one run = one generated dataset serialised by the real serializer into SimWriter and parsed back by the real parser from SimReader, first over a perfect channel (reference twin, checked for isomorphism with the input restricted to what the format expresses) then over a tape-drawn noisy/faulty channel on each side; distinct = distinct signature (format+configuration, term-kind shape of the input, fault kinds that fired and their position class); non-trivial = a fault or benign noise event fired inside a serializer/parser call, or (fault-free) >= 4 statements and >= 2 probes";
+
 fn scenarios() -> Vec<Scenario> {
-    vec![Scenario {
+    vec![
+        Scenario {
+            quick_runs: 80_000,
+            thorough_runs: 6_000_000,
+            rule: RT_RULE,
+            real_components: &[
+                "sophia_turtle::serializer::{turtle,trig,_pretty}",
+                "sophia_turtle::parser::{turtle,trig,gtrig}",
+                "sophia_rio adapters",
+                "rio_turtle",
+            ],
+            ..base("C04", 0xC04, run_c04)
+        },
+        Scenario {
+            quick_runs: 25_000,
+            thorough_runs: 1_500_000,
+            rule: RT_RULE,
+            real_components: &[
+                "sophia_jsonld::{JsonLdSerializer, serializer::engine, JsonLdParser, parser::adapter}",
+                "json-ld, json-syntax, tokio current-thread runtime",
+            ],
+            ..base("C12", 0xC12, run_c12)
+        },
+        Scenario {
+            quick_runs: 60_000,
+            thorough_runs: 4_000_000,
+            rule: RT_RULE,
+            real_components: &[
+                "sophia_xml::{serializer, parser}",
+                "sophia_rio adapters",
+                "rio_xml, quick-xml",
+            ],
+            ..base("C18", 0xC18, run_c18)
+        },
+        Scenario {
         property: "C03",
         tag: 0xC03,
         run: run_c03,
@@ -134,6 +564,7 @@ fn scenarios() -> Vec<Scenario> {
         shrink_budget: 2500,
         run_timeout_s: 30,
         thorough_extra: None,
+        warmup: Some(warmup),
     }]
 }
 
